@@ -40,6 +40,8 @@ def check(model: Model, rep: Report, tier: str):
         o4_o5(model, rep)
     with rep.isolated():
         o6(model, rep)
+    with rep.isolated():
+        o7(model, rep)
 
 
 def _ctor_name(v: Term) -> Optional[str]:
@@ -438,6 +440,25 @@ def o4_o5(model: Model, rep: Report):
         rep.check(okt, "C15.O4", construct + "[final-kernel]", f.loc, found=[show(c) for c in tail], required="result_program.add_kernel(kernel) after the walk whenever the kernel may hold operations; return the program",
                   what="the collected kernel is not part of the returned program", detail="final-kernel")
     rep.floor("return paths of the OpenQL walk", n, 2)
+
+
+def o7(model: Model, rep: Report):
+    """Exporting twice gives the same names: nothing the exporter reads is changed by exporting."""
+    from ..effects import Effects
+    from ..resolve import CallGraph
+    from .c03 import h2
+    cg = CallGraph(model)
+    K = model.cls("OpenQLCircuitFactoryManager")
+    obs = [K.resolve("construct"), K.resolve("construct_uuid")]
+    for f in model.all_functions():
+        if f.module.relpath.replace("\\", "/").find("addon_openql") >= 0 and f.cls is None and f.name.startswith("to_openql"):
+            obs.append(f)
+    if any(o is None for o in obs):
+        raise AnalysisError("OpenQL export entry points not found")
+    h2(model, rep, cg, Effects(model, cg), obs=obs, rule="C15.O7",
+       text="the same circuit always yields the same program and kernel names: the export entry points write nothing that outlives the call inside the OpenQL add-on "
+            "(no session counter, name registry or memo), except the platform singleton (= C03.H2 restricted to the exporter's own state)",
+       keep=lambda w: "addon_openql" in w.fn.module.relpath)
 
 
 def o6(model: Model, rep: Report):
